@@ -157,7 +157,8 @@ var ghostRecNext func(d []byte, o int) int
 //@   trusted
 //@   modifies nothing
 
-// Table.Get. For C07 a table is a function of its key (assumed clauses, as before). Record level,
+// Table.Get. For C07 a table is a function of its key (assumed clauses, as before; there the lazy
+// load of the table's own footer on first use is not treated as a change of state). Record level,
 // proved: on a well-formed file the scan visits records only (the cursor is at a record start
 // before every record it reads - a reader that skips value bytes of a tombstone, or forgets
 // them for a live entry, leaves the record grid); an entry it returns is the decoded record
@@ -167,7 +168,8 @@ var ghostRecNext func(d []byte, o int) int
 //@   property C17
 //@   nosafety
 //@   requires{C17} t.entriesSize >= 0
-//@   modifies t.metadataLoaded, t.filter, t.searchIndex, io.Reader.pos
+//@   modifies{C17} t.metadataLoaded, t.filter, t.searchIndex, io.Reader.pos
+//@   modifies{C03,C07,C10,C18} nothing
 //@   assumes result1 == nil ==> ghostTableHas(t, key) && result0 != nil && result0 == ghostTableEntry(t, key)
 //@   assumes result1 == kv.ErrNotFound ==> !ghostTableHas(t, key)
 //@   ensures tblWF(t) && result1 == nil ==> result0 != nil
@@ -316,12 +318,28 @@ var ghostLevelOf func(ll *LevelList, t *Table) int
 // the table's own metadata, writing a run creates new tables and touches the writer only.
 //@ define scanSorted(q) := forall(0, seqlen(q), func(ii_ int) bool { return forall(0, ii_, func(jj_ int) bool { return string(seqat(q, jj_).Key()) < string(seqat(q, ii_).Key()) }) })
 // (the lazy load of a table's own metadata on first use is not treated as a change of state)
+// Record level (C17, body verified there): the scan stays on the record grid of a well-formed
+// file (every iteration starts at a record start and consumes exactly that record, whether it is
+// skipped, a tombstone or a live entry), and what it yields is the record it just read: the key
+// has the prefix, tombstones are yielded as delete entries without value, live entries with theirs.
 //@ func Table.ScanPrefix
-//@   property C18 C07 C03
-//@   trusted
+//@   property C18 C07 C03 C17
+//@   trusted{C18,C07,C03,C10}
 //@   pure
-//@   modifies nothing
+//@   nosafety
+//@   requires{C17} t.entriesSize >= 0
+//@   modifies{C18,C07,C03,C10} nothing
+//@   modifies{C17} t.metadataLoaded, t.filter, t.searchIndex, io.Reader.pos, Entry.*, *errOut
 //@   ensures{C07,C03,C10} scanSorted(result)
+//@   atcall yield@0: arg0 != nil
+//@   atcall yield@0: arg0.(*Entry).isDelete
+//@   atcall yield@0: same(arg0.(*Entry).key, key) && arg0.(*Entry).seqNum == seqNum
+//@   atcall yield@0: bytes.HasPrefix(key, prefix)
+//@   atcall yield@1: arg0 != nil && !arg0.(*Entry).isDelete && same(arg0.(*Entry).key, key) && arg0.(*Entry).seqNum == seqNum && same(arg0.(*Entry).value, value) && bytes.HasPrefix(key, prefix)
+//@   loop 0:
+//@     invariant same(io.Reader(cur).data, tblData(t))
+//@     invariant recsWF(tblData(t)) ==> 0 <= io.Reader(cur).pos && io.Reader(cur).pos <= len(tblData(t)) && ghostRecStart(tblData(t), io.Reader(cur).pos) &&
+//@               (io.Reader(cur).pos < len(tblData(t)) ==> ghostRecNext(tblData(t), io.Reader(cur).pos) > io.Reader(cur).pos)
 
 //@ func TableWriter.WriteRun
 //@   property C18
